@@ -38,7 +38,8 @@ PROPERTY = 'C17'
 LEVEL = 'exploration'
 LEVEL_TEXT = ('Real Reply.send/IO.send_reply and Reply.recv/IO.recv_reply run on a scripted socket: every code '
               '200..599 x a directed text list (Unicode incl. astral, embedded CR/LF/CRLF, enhanced-status-looking '
-              'prefixes of every class, empty inner lines, trailing blanks), seeded random sequences of 1..3 '
+              'prefixes of every class, empty inner lines, trailing blanks, BOM / zero-width / combining / control '
+              'characters at the start, alone and after an ESC), seeded random sequences of 1..3 '
               'concatenated replies with trailers, each under whole/bytewise/every single cut/pairs of cuts '
               'around reply boundaries/seeded segmentations; plus EVERY byte string over '
               '{2,5,x,-,SP,CR,LF,0xFF} up to length 7 (quick) / 8 (thorough) compared call-by-call with a '
@@ -114,10 +115,17 @@ DIRECTED = [
     '4.0.0 4.1.0 4.2.0 x', '5.999.999 max', '2.0.0 two\r\n2.1.0 second', '250 looks like code',
     '250-x\r\n250 y', '-dash', 'x\r\n2.0.0 inner', 'x\r\n.\r\ny', '2.٣.0 arabic-digit',
     'x\r\n  indented\r\n\ttab', 'three\r\nline\r\ntext', 'w' * 70 + '\r\n' + 'v' * 70,
+    # characters a codec or a text layer may treat specially at the start of the text (BOM / byte-order
+    # non-character / zero-width / lone combining mark / control characters): first, in the middle, alone, on a
+    # later line, and after an enhanced status code
+    '\ufeffBOM first', 'mid\ufeffdle', '\ufeff', '\ufeff\ufeff twice', '\ufffe reversed', '\u200bzero width',
+    '\u2060word joiner', '\u0301combining', '\x00nul first', '\x7fdel first', 'x\r\n\ufeffsecond line',
+    '2.0.0 \ufeffafter esc', '5.1.1 \ufeff', '4.2.0 \u200bafter esc', '2.1.5 \x00', '2.0.0 \u0301', '\ufeff2.0.0 esc after',
 ]
+NDIR_ALL_CODES = DIRECTED.index('\ufeffBOM first')
 TOKENS = ['a', 'b', 'OK', ' ', '  ', '\t', '\r', '\n', '\r\n', '\r\n', '\r\n\r\n', '2.0.0 ', '5.1.1 ', '4.2.2 ',
           '2.1.5\t', '4.', '3.0.0 ', '5.7.1\r\n', 'é', '\U0001F600', '日', '-', '.', '250 ', '250-',
-          '\x00', '\x85', '2.0.0', 'x y']
+          '\x00', '\x85', '2.0.0', 'x y', '\ufeff', '\u200b', '\u0301', '\x7f']
 TRAILERS = [b'', b'', b'250-pa', b'x', b'5', b'\r']
 LONG = 'L' * 4090 + '\r\n2.0.0 ' + 'é' * 3000
 
@@ -203,7 +211,9 @@ def gen_cases(tier, seed, shard, nshards):
             yield {'kind': 'unj', 'stream': s}
         n += 1
     for code in range(200, 600):
-        for t in DIRECTED:
+        for ti, t in enumerate(DIRECTED):
+            if ti >= NDIR_ALL_CODES and code % 7:      # the special-character texts: every 7th code (all classes)
+                continue
             if n % nshards == shard:
                 yield {'kind': 'dir', 'replies': [[str(code), t]], 'trailer': b'', 'rs': code}
             n += 1
@@ -741,7 +751,7 @@ def run_odd(case, R):
 
 # ------------------------------------------------------------------ concurrent readers
 NCONC = {'quick': 480, 'thorough': 8000}
-CONC_TEXTS = ['OK', 'two\r\nlines', 'x\r\n\r\ny', 'three\r\nline\r\ntext', '5.1.1 no', 'é 日本語\r\nü', '',
+CONC_TEXTS = ['OK', '\ufeffbom', 'two\r\nlines', 'x\r\n\r\ny', 'three\r\nline\r\ntext', '5.1.1 no', 'é 日本語\r\nü', '',
               'a\r\nb\r\nc\r\nd', '2.1.5 Recipient\r\nok']
 
 
